@@ -522,6 +522,12 @@ def _replay_claim(ob, c, rec):
         # the concrete oracle fails on the real code for these inputs, under
         # another label than the symbolic claim's: a violation all the same
         hit = list(viol.items())[0]
+    if hit is None and c.get('known'):
+        # a recorded finding whose counterexample no longer fails on the
+        # real code (repaired, possibly in a part the twin does not encode):
+        # no KNOWN-FINDING line, no alarm
+        rec.setdefault('known_not_reproduced', []).append(_jsonable(entry))
+        return
     if hit is None:
         entry['real'] = r
         entry['kind'] = 'replay'
